@@ -101,7 +101,7 @@ def initFromStore : List String := [
   "if err!=nil {",
   "return",
   "}",
-  "set validStatus:=tmp.status==StatusHitForPass||(tmp.status==StatusHit&&tmp.response!=nil&&tmp.response.StatusCode!=0)",
+  "set validStatus:=tmp.status==StatusHitForPass||(tmp.status==StatusHit&&tmp.response!=nil&&tmp.response.StatusCode>=100&&tmp.response.StatusCode<=999)",
   "if !validStatus||tmp.expiredAt==0 {",
   "return ErrInvalidStoreData",
   "}",
